@@ -53,6 +53,16 @@ type sshTransport struct {
 
 // NewTransport creates a new SSH transport using the specified parameters.
 func NewTransport(user, host string, port uint16, prompter string) (agent.Transport, error) {
+	// Verify that neither the user nor the host could be mistaken for a
+	// command line option by the SSH and SCP commands, which receive them as
+	// (the start of) a positional argument.
+	if len(user) > 0 && user[0] == '-' {
+		return nil, errors.New("user name begins with '-'")
+	} else if len(host) > 0 && host[0] == '-' {
+		return nil, errors.New("host name begins with '-'")
+	}
+
+	// Success.
 	return &sshTransport{
 		user:     user,
 		host:     host,
